@@ -6,7 +6,10 @@ CONSTANTS NC = 2
  MaxSteps = 0
  RestartAnywhere = FALSE
  Touch = {0}
+ VMaps = {100}
+ Persist = FALSE
+ MaxChg = 2
  Dev = {}
-INVARIANTS TypeOK TopIsFullSort
+INVARIANTS TypeOK TopIsFullSort FileOK
 PROPERTIES RestartKeepsTop
 CHECK_DEADLOCK FALSE
